@@ -113,8 +113,9 @@ Fixpoint check_trace (s : sorter) (ops : list op) (i : nat) : option nat :=
 (* ---- from_dag: task-only closure graph of the bipartite task/node DAG *)
 From Verif Require Import Base.Graph.
 
+(* (u,t) for tasks u,t with u an ancestor of t (nx.ancestors(dag, t) & tasks) *)
 Definition closure_edges (tasks : list N) (E : list edge) : list (N * N) :=
-  flat_map (fun t => map (fun a => (a, t)) (filter (fun a => memN a tasks) (ancestors E t))) tasks.
+  flat_map (fun t => map (fun a => (a, t)) (filter (fun a => reachb E a t) tasks)) tasks.
 
 (* None = check_dag raised (the graph has a cycle) *)
 Definition from_dag (tasks : list N) (E : list edge) (p : list (N * Z)) : option sorter :=
